@@ -440,3 +440,138 @@ pub fn walk(bytes: &[u8]) -> Result<RawFile, String> {
 	};
 	Ok(RawFile { table, events, metadata, raw_len: None, tail })
 }
+
+/// Independent decoder: event list -> ModelGame (the reference reading of a file, irregular
+/// intra-frame order tolerated). Used for the fixture cross-check and for C17's expectations.
+/// Unknown event codes are ignored, as is anything after the first Game End except an identical
+/// duplicate Game End.
+pub fn model_from_raw(raw: &RawFile) -> Result<ModelGame, String> {
+	use crate::spec::gs;
+	let st = raw.events.first().ok_or("no events")?;
+	if st.code != spec::EV_GAME_START {
+		return Err("first event is not Game Start".into());
+	}
+	let start = st.payload.clone();
+	if start.len() < 320 {
+		return Err("start block too short".into());
+	}
+	let version = (start[0], start[1], start[2]);
+	let v = (version.0, version.1);
+	let layout = if v > (3, 16) { (3, 16) } else { v };
+	let mut ports = Vec::new();
+	for i in 0..4 {
+		let b = gs::PLAYERS + i * gs::PLAYER_LEN;
+		if start[b + gs::P_TYPE] <= 2 {
+			ports.push(PortSpec { port: i as u8, ics: start[b + gs::P_CHAR] == spec::ICE_CLIMBERS });
+		}
+	}
+	let size_of = |c: u8| raw.table.iter().rev().find(|(k, _)| *k == c).map(|(_, s)| *s as usize);
+	let ex = |k: Kind| -> Result<usize, String> {
+		match size_of(k.code()) {
+			Some(s) => s.checked_sub(spec::event_size(k, layout)).ok_or(format!("{:?} payload shorter than spec", k)),
+			None => Ok(0),
+		}
+	};
+	let extra = Extra { pre: ex(Kind::Pre)?, post: ex(Kind::Post)?, item: ex(Kind::Item)?, fstart: ex(Kind::FrameStart)?, fend: ex(Kind::FrameEnd)? };
+	let mut m = ModelGame { version, layout, start, ports, frames: Vec::new(), gecko: None, end: EndSpec::None, metadata: None, extra };
+	let slots = m.slots();
+	let ns = slots.len();
+	let mut gecko_bytes: Vec<u8> = Vec::new();
+	let mut gecko_actual: u32 = 0;
+	let id_of = |p: &[u8]| i32::from_be_bytes([p[0], p[1], p[2], p[3]]);
+	let new_frame = |id: i32| FrameOcc { id, start: None, chars: vec![None; ns], items: Vec::new(), end: None };
+	let mut it = raw.events.iter().skip(1).peekable();
+	while let Some(e) = it.next() {
+		match e.code {
+			spec::EV_SPLITTER => {
+				let p = &e.payload;
+				if p.len() != 516 {
+					return Err("splitter size".into());
+				}
+				gecko_bytes.extend_from_slice(&p[..512]);
+				gecko_actual += u16::from_be_bytes([p[512], p[513]]) as u32;
+				if p[515] != 0 && p[514] == spec::EV_GECKO {
+					m.gecko = Some(Gecko { bytes: std::mem::take(&mut gecko_bytes), actual: gecko_actual });
+				}
+			}
+			spec::EV_FRAME_START => {
+				let mut f = new_frame(id_of(&e.payload));
+				f.start = Some(e.payload[4..].to_vec());
+				m.frames.push(f);
+			}
+			spec::EV_PRE | spec::EV_POST => {
+				let id = id_of(&e.payload);
+				let (port, fol) = (e.payload[4], e.payload[5] != 0);
+				let si = slots.iter().position(|s| s.port == port && s.follower == fol).ok_or(format!("event for unoccupied slot {}:{}", port, fol))?;
+				if e.code == spec::EV_PRE && !spec::gte(layout, (2, 2)) && m.frames.last().map_or(true, |f| f.id != id) {
+					m.frames.push(new_frame(id));
+				}
+				let f = m.frames.last_mut().ok_or("character event before any frame")?;
+				if f.id != id {
+					return Err(format!("event id {} in frame {}", id, f.id));
+				}
+				let c = f.chars[si].get_or_insert_with(|| CharData { pre: Vec::new(), post: Vec::new() });
+				if e.code == spec::EV_PRE {
+					c.pre = e.payload[6..].to_vec();
+				} else {
+					c.post = e.payload[6..].to_vec();
+				}
+			}
+			spec::EV_ITEM => {
+				let f = m.frames.last_mut().ok_or("item before any frame")?;
+				f.items.push(e.payload[4..].to_vec());
+			}
+			spec::EV_FRAME_END => {
+				let f = m.frames.last_mut().ok_or("frame end before any frame")?;
+				f.end = Some(e.payload[4..].to_vec());
+			}
+			spec::EV_GAME_END => {
+				let dup = it.peek().map_or(false, |n| n.code == spec::EV_GAME_END) && raw.tail.is_empty();
+				m.end = if dup { EndSpec::Two(e.payload.clone()) } else { EndSpec::One(e.payload.clone()) };
+				break;
+			}
+			_ => {}
+		}
+	}
+	if let Some(md) = &raw.metadata {
+		m.metadata = Some(parse_ubjson_map(&mut &md[..])?);
+	}
+	Ok(m)
+}
+
+fn take<'a>(r: &mut &'a [u8], n: usize) -> Result<&'a [u8], String> {
+	if r.len() < n {
+		return Err("ubjson: short".into());
+	}
+	let (a, b) = r.split_at(n);
+	*r = b;
+	Ok(a)
+}
+
+/// body of a map up to and including its closing brace
+pub fn parse_ubjson_map(r: &mut &[u8]) -> Result<Vec<(String, Meta)>, String> {
+	let mut out = Vec::new();
+	loop {
+		match take(r, 1)?[0] {
+			b'}' => return Ok(out),
+			b'U' => {
+				let n = take(r, 1)?[0] as usize;
+				let k = String::from_utf8(take(r, n)?.to_vec()).map_err(|e| e.to_string())?;
+				let v = match take(r, 1)?[0] {
+					b'S' => {
+						if take(r, 1)?[0] != b'U' {
+							return Err("ubjson: string length type".into());
+						}
+						let n = take(r, 1)?[0] as usize;
+						Meta::Str(String::from_utf8(take(r, n)?.to_vec()).map_err(|e| e.to_string())?)
+					}
+					b'l' => Meta::Int(i32::from_be_bytes(take(r, 4)?.try_into().unwrap())),
+					b'{' => Meta::Map(parse_ubjson_map(r)?),
+					c => return Err(format!("ubjson: value type {:#x}", c)),
+				};
+				out.push((k, v));
+			}
+			c => return Err(format!("ubjson: key type {:#x}", c)),
+		}
+	}
+}
